@@ -123,7 +123,11 @@ void check_segment(gr_segment *seg, const Encoded &text, const gr_face *face, co
     // ---- C05: characters <-> slots
     if (mf.c05) {
         unsigned nc = gr_seg_n_cinfo(seg);
-        if (nc != nch) { violation("C05:n-cinfo", strf("n_cinfo=%u, nChars=%zu", nc, nch)); return; }
+        // A text with an embedded U+0000 and an nChars that counts past it: the code treats the NUL as one more character,
+        // the header says processing stops at the first NUL. Both are accepted - all nChars characters decoded in order, or a
+        // segment made from exactly the characters before the NUL - but nothing in between (char-infos nobody filled in).
+        if (text.first_nul != size_t(-1)) probe(nc == text.first_nul ? "c05:embedded-nul-stopped" : "c05:embedded-nul-as-character");
+        if (nc != nch && !(text.first_nul != size_t(-1) && nc == text.first_nul)) { violation("C05:n-cinfo", strf("n_cinfo=%u, nChars=%zu", nc, nch)); return; }
         size_t prevbase = 0;
         for (unsigned i = 0; i < nc; ++i) {
             const gr_char_info *ci = gr_seg_cinfo(seg, i);
